@@ -164,13 +164,13 @@ def history(M, rec, rng, g, desc):
     # intermediate operations on the same objects
     hist = []
     last_kind = first_engine  # what kind of variables the elements currently hold
-    kind_after = {"np_same_state_other_controls": "numpy", "np_other_values": "numpy", "np_other_options": "numpy", "sx": "SX", "mx": "MX", "own_vars": "numpy",
+    kind_after = {"np_step_failing_half_way": None, "np_same_state_other_controls": "numpy", "np_other_values": "numpy", "np_other_options": "numpy", "sx": "SX", "mx": "MX", "own_vars": "numpy",
                   "same_arrays_again": "numpy", "refresh_in_place": "numpy", "elements_other_values": first_engine,
                   "elements_partial_init": first_engine}
     for _ in range(rng.randint(2, 7)):
         op = rng.choice(("np_other_values", "np_other_options", "sx", "mx", "compile", "own_vars", "same_arrays_again",
                          "refresh_in_place", "refresh_in_place", "elements_other_values", "elements_partial_init",
-                         "np_same_state_other_controls", "np_same_state_other_controls"))
+                         "np_same_state_other_controls", "np_same_state_other_controls", "np_step_failing_half_way"))
         hist.append(op)
         last_kind_before = last_kind
         try:
@@ -180,6 +180,19 @@ def history(M, rec, rng, g, desc):
                                        "positive_next_density", "positive_next_queue") if rng.random() < (0.6 if op.endswith("options") else 0.0)}
                 ic = drive.np_init(built, v, rng.choice(("vec1", "0d", "float")), readonly=True)
                 guarded_step(rec, built, ic, NE(), drive.step_pars(g.pars()), o, "numpy", dict(ctx, intermediate=op))
+            elif op == "np_step_failing_half_way":
+                # a Network.step that raises while the links are being stepped (a wrongly sized array for the last
+                # link): the caller catches it and carries on with the same objects
+                _, v = g.values(desc, allow_inf=False)
+                ic = drive.np_init(built, v, "vec1")
+                last = list(built.net.links)[-1][-1]
+                if last in ic and "v" in ic[last]:
+                    ic[last]["v"] = np.append(np.asarray(ic[last]["v"], dtype=float), 50.0)
+                    try:
+                        built.net.step(init_conditions=ic, engine=rng.choice((eng_np, NE())), **kw)
+                        rec.count("steps_expected_to_fail_that_did_not")
+                    except Exception:
+                        rec.count("steps_failing_half_way")
             elif op == "np_same_state_other_controls":
                 # candidate controls compared from ONE traffic state (a one-step look-ahead controller): the
                 # very same densities / speeds / queues, other (tighter or looser) limits, rates and flows
@@ -217,6 +230,12 @@ def history(M, rec, rng, g, desc):
                 e = CE(st)
                 built.net.step(engine=e, **kw)
                 e.to_function(built.net, compact=rng.choice((0, 1, 2)), more_out=rng.random() < 0.5, **kw)
+            elif op == "own_vars" and rng.random() < 0.5:
+                # one and the same empty mapping for several elements: each gets variables of its own and the
+                # mapping stays empty
+                shared = {}
+                ic = {el_: shared for el_ in built.links.values()}
+                guarded_step(rec, built, ic, NE(var_type="rand"), kw, {}, "numpy", dict(ctx, intermediate="own_vars, one shared empty inner mapping"))
             elif op == "own_vars":
                 built.net.step(engine=NE(var_type="rand"), **kw)
             elif op == "same_arrays_again" and first_engine == "numpy":
